@@ -168,6 +168,16 @@ CHECKS = {
             "the compiler is the oracle of the static half (a generated compile test, see DESIGN section 4); iterator "
             "conversions are not part of the property",
             "DESIGN.md section 3, C11"),
+    "C10": ("fault_enumeration",
+            "every generated accessor kind executed at every buffer length inside a resume-mode guard-page arena with "
+            "sbepp's assertion handler as the observation point; access beyond p+n (hardware fault record) must coincide "
+            "with a handler call, and no handler call from the entity's end on",
+            "For every message of corpus and random schemas each operation (48 kinds: field/composite/array/<data>/group/"
+            "cursor/visit/size) runs once per n = 0..full on a view bound to [p, p+n): a touched byte at or beyond p+n "
+            "without the handler is a violation (late checks are counted, not failed); the converse is checked from the "
+            "end of the addressed entity and at n = full.",
+            "one image per message (all groups non-empty); entry indices first/last; far accesses observable within 8 GiB",
+            "DESIGN.md section 3, C10"),
 }
 
 
